@@ -269,6 +269,30 @@ enum Job {
     Seq { dyadic: bool, len: usize, idx: u64, f32_: bool },
     Edge { pattern: usize, n: usize, f32_: bool },
     Stream { f32_: bool, pts: Vec<usize> },
+    /// one sample asked for a chain of nearly equal levels, kind by kind
+    LevelChain { sample: usize },
+}
+
+/// samples for the level chains (n = 2, 4, 5, 12: 1, 3, 4, 11 degrees of freedom)
+const CHAIN_SAMPLES: [&[f64]; 4] = [&[1.0, 2.0], &[-3.0, -1.0, 0.25, 2.0], &[0.25, 1.0, 2.0, -0.5, 3.0], &[1.0, -1.0, 1.0, -1.0, 0.25, -1.0, 1.0, -1.0, 1.0, -1.0, 1.0, -0.5]];
+
+/// every grid level with neighbours at +-1e-9, +-3e-8, +-6e-8, +-1e-7, +-1e-6, requested one
+/// after the other (kind-major, ascending): each answer is judged against the oracle on its own,
+/// so an interval that is really that of a neighbouring level (a tolerance-keyed memo, a level
+/// rounded through f32, a coarse lookup table) is off by the distance between the two levels
+fn chain_confs() -> Vec<(Kind, f64)> {
+    let mut v = vec![];
+    for k in mc::KINDS {
+        for &l in mc::LG.iter() {
+            for d in [-1e-6, -1e-7, -6e-8, -3e-8, -1e-9, 0.0, 1e-9, 3e-8, 6e-8, 1e-7, 1e-6] {
+                let x = l + d;
+                if x > 0.0 && x < 1.0 {
+                    v.push((k, x));
+                }
+            }
+        }
+    }
+    v
 }
 
 fn run(tier: Tier) -> Sink {
@@ -314,10 +338,18 @@ fn run(tier: Tier) -> Sink {
             jobs.push(Job::Stream { f32_, pts: chunk.to_vec() });
         }
     }
+    for sample in 0..CHAIN_SAMPLES.len() {
+        jobs.push(Job::LevelChain { sample });
+    }
+    let chain = chain_confs();
     let npat = tier.pick(3, 6);
     // thorough D1 at full length uses the reduced style set beyond length 5 to bound cost
     let long_confs = [(Kind::Two, 0.95), (Kind::Upper, 0.9), (Kind::Lower, 0.25)];
     par_judge(&jobs, |j, s| match j {
+        Job::LevelChain { sample } => {
+            judge_sample::<f64>(CHAIN_SAMPLES[*sample], &chain, &[Style::Ci], s);
+            judge_sample::<f32>(CHAIN_SAMPLES[*sample], &chain, &[Style::Ci], s);
+        }
         Job::Long { pattern, n, f32_ } => {
             if *f32_ {
                 judge_long_vector::<f32>(*pattern, *n, &long_confs, s)
